@@ -188,8 +188,29 @@ def run(ctx):
         (ast.Identifier("a"), ast.Identifier("a", ())), (ast.Identifier("a", ("n",)), ast.Identifier("a")),
         (ast.List([ast.Integer("1")]), ast.List([ast.Integer("1")])), (ast.List([]), ast.List([ast.Null()])),
         (ast.Boolean("true"), ast.Boolean("TRUE")), (ast.Eq(), ast.NotEq()), (ast.Any(), ast.Any()),
+        # two spellings of ONE value are two different trees (the node keeps the spelling; rendering gives different texts)
+        (ast.GUID("1edbc3b3-3685-4a19-a7ed-eb562c198d96"), ast.GUID("1EDBC3B3-3685-4A19-A7ED-EB562C198D96")), (ast.GUID("aaaaaaaa-bbbb-cccc-dddd-eeeeeeeeeeee"), ast.GUID("AAAAAAAA-bbbb-cccc-dddd-eeeeeeeeeeee")),
+        (ast.String("a"), ast.String("A")), (ast.Integer("5"), ast.Integer("+5")), (ast.Integer("-0"), ast.Integer("0")), (ast.Float("1.0"), ast.Float("1.00")), (ast.Float("1e3"), ast.Float("1E3")),
+        (ast.Float("1e3"), ast.Float("1000.0")), (ast.Duration("P1D"), ast.Duration("PT24H")), (ast.Duration("P1D"), ast.Duration("+P1D")), (ast.DateTime("2020-01-01T10:00:00Z"), ast.DateTime("2020-01-01T10:00:00+00:00")),
+        (ast.Time("12:00:00"), ast.Time("12:00:00.0")), (ast.Date("2020-01-01"), ast.Date("2020-01-02")), (ast.Geography("POINT(1 2)"), ast.Geography("point(1 2)")),
+        (ast.Identifier("a"), ast.Identifier("A")), (ast.Identifier("a", ("n",)), ast.Identifier("a", ("N",))), (ast.Attribute(ast.Identifier("a"), "b"), ast.Attribute(ast.Identifier("a"), "B")),
+        (ast.Compare(ast.Eq(), ast.Identifier("id"), ast.GUID("1edbc3b3-3685-4a19-a7ed-eb562c198d96")), ast.Compare(ast.Eq(), ast.Identifier("id"), ast.GUID("1EDBC3B3-3685-4a19-a7ed-eb562c198d96"))),
+        (ast.List([ast.GUID("aaaaaaaa-bbbb-cccc-dddd-eeeeeeeeeeee")]), ast.List([ast.GUID("AAAAAAAA-BBBB-CCCC-DDDD-EEEEEEEEEEEE")])),
+        (ast.Call(ast.Identifier("f", ("x",)), [ast.NamedParam(ast.Identifier("p"), ast.Boolean("true"))]), ast.Call(ast.Identifier("f", ("x",)), [ast.NamedParam(ast.Identifier("p"), ast.Boolean("True"))])),
         (ast.CollectionLambda(ast.Identifier("a"), ast.Any(), None), ast.CollectionLambda(ast.Identifier("a"), ast.All(), None))]]
-    common.correspond(ctx, "structural-equality", pairs, real_fn=lambda c: str(c[1] == c[3]),
+    # ... through == , != , hashing (set membership) alike
+    def eq3(c):
+        a, b = c[1], c[3]
+        r = a == b
+        if (a != b) == r:
+            return "== and != disagree"
+        try:
+            if r != (b in {a}):
+                return "== and set membership disagree"
+        except TypeError:
+            pass          # unhashable nodes (lists inside): nothing to compare
+        return str(r)
+    common.correspond(ctx, "structural-equality", pairs, real_fn=eq3,
                       model_reqs=lambda c: driver.req("treeeq", c[0], c[2]),
                       nontrivial=lambda c, r: True, describe=lambda c: (repr(c[1])[:150], repr(c[3])[:150]), bucket=lambda c, r: r)
     # non-mutation: a runtime fact, the model side is the constant "unchanged"
